@@ -10,7 +10,6 @@ import (
 	"sync"
 	"time"
 
-	"github.com/CrowdStrike/csproto"
 	"github.com/CrowdStrike/csproto/lazyproto"
 
 	"csverif/internal/fw"
@@ -29,20 +28,29 @@ type concObs struct {
 // sharedRound: G goroutines share one decoder; each decodes its own inputs, reads, closes.
 func sharedRound(c *fw.Ctx, G, iters, procs int) {
 	r := c.Rng
-	fs := genLzFields(r, 0)
-	def := genLzDef(r, fs, 0)
-	fast := r.Bool()
-	mode := csproto.DecoderModeSafe
-	if fast {
-		mode = csproto.DecoderModeFast
+	// two rounds in three: a definition that descends three or four message levels (root -> nested -> nested-in-nested
+	// [-> one more]); nested results are pooled per nested Decoder, so the objects of the deeper levels are closed and
+	// recycled between the goroutines just like the roots
+	var fs []*lzField
+	var def *lzDef
+	if k := r.Intn(3); k > 0 {
+		fs, def = genLzDeepCase(r, 2+k)
+	} else {
+		fs = genLzFields(r, 0)
+		def = genLzDef(r, fs, 0)
 	}
-	opts := []lazyproto.Option{lazyproto.WithMode(mode)}
-	if r.Bool() {
-		opts = append(opts, lazyproto.WithMaxBufferSize(r.Intn(3)))
-	}
-	dec, err := lazyproto.NewDecoder(def.toDef(), opts...)
+	opt := genOptCombo(r)
+	fast := opt.fast
+	dec, err := lazyproto.NewDecoder(def.toDef(), opt.options()...)
 	if err != nil {
 		return
+	}
+	// every path of the definition tree that goes below the root
+	var deepPaths [][]int
+	for _, p := range lzAllPaths(def) {
+		if len(p) >= 2 {
+			deepPaths = append(deepPaths, p)
+		}
 	}
 	old := runtime.GOMAXPROCS(procs)
 	defer runtime.GOMAXPROCS(old)
@@ -83,10 +91,18 @@ func sharedRound(c *fw.Ctx, G, iters, procs int) {
 			for k := 0; k < 4; k++ {
 				rq = append(rq, reqT{genLzPath(gr, def, fs), accNames[gr.Intn(len(accNames))]})
 			}
+			// ... and up to 4 of the paths that descend into nested messages, the deepest ones first in line
+			for k := 0; k < 4 && len(deepPaths) > 0; k++ {
+				p := deepPaths[gr.Intn(len(deepPaths))]
+				if q := deepPaths[gr.Intn(len(deepPaths))]; len(q) > len(p) {
+					p = q
+				}
+				rq = append(rq, reqT{p, []string{"Bytess", "UInt64s", "Fixed32s", "Strings", "Fixed64s", accNames[gr.Intn(len(accNames))]}[gr.Intn(6)]})
+			}
 			reqs[g] = append(reqs[g], rq)
 		}
 	}
-	desc := fmt.Sprintf("G=%d procs=%d fast=%v def=%s", G, procs, fast, def.String())
+	desc := fmt.Sprintf("G=%d procs=%d %s def=%s", G, procs, opt, def.String())
 	c.Journal("C15 " + desc)
 	obs := make([][]concObs, G)
 	// values handed out in safe mode stay the goroutine's own after Close ("new slices for any returned field
@@ -159,6 +175,7 @@ func sharedRound(c *fw.Ctx, G, iters, procs int) {
 			}
 			var prev *openRes
 			for i, in := range inputs[g] {
+				in0 := in
 				data := append([]byte{}, in...)
 				res, err := dec.Decode(data)
 				rq := []string{fmt.Sprintf("L 1 %s", def.String()), fmt.Sprintf("decode 0 %s new:0", hexs(in))}
@@ -187,29 +204,36 @@ func sharedRound(c *fw.Ctx, G, iters, procs int) {
 						}
 						keep(fmt.Sprintf("%s(%s) of input %s", q.name, pathString(q.path), trunc(hexs(in), 200)), got, live)
 					}
-					// explicit nested results, closed by the client before the root (documented as a no-op)
-					for _, e := range def.entries {
-						if e.sub == nil || e.key < 0 {
-							continue
-						}
-						if n, nerr := res.NestedResult(e.key); nerr == nil && n != nil {
-							if payload, ok := lastPayload(in, e.key); ok {
-								for _, se := range e.sub.entries {
-									if se.sub != nil || se.key < 0 {
-										continue
-									}
-									got, live := accessPathV(n, []int{se.key}, "Bytess")
-									if want, ok := refPathAnswer(payload, e.sub, []int{se.key}, "Bytess"); ok && want != got && o.viol == nil {
-										o.viol = &fw.Violation{Stream: "shared", Signature: "conc/foreign-value/nested-result",
-											What:  fmt.Sprintf("goroutine %d observed, in a nested result, a value that is not its own input's", g),
-											Input: fmt.Sprintf("%s input=%s nested=%d tag=%d", desc, hexs(in), e.key, se.key), Expected: trunc(want, 200), Got: trunc(got, 200)}
-									}
-									keep(fmt.Sprintf("NestedResult(%d).Bytess(%d) of input %s", e.key, se.key, trunc(hexs(in), 200)), got, live)
-								}
+					// explicit nested results at every level of the definition (NestedResult of a NestedResult of ...),
+					// closed by the client before the root (documented as a no-op)
+					var descend func(res *lazyproto.DecodeResult, in []byte, d *lzDef, trail string)
+					descend = func(res *lazyproto.DecodeResult, in []byte, d *lzDef, trail string) {
+						for _, e := range d.entries {
+							if e.sub == nil || e.key < 0 {
+								continue
 							}
-							n.Close()
+							if n, nerr := res.NestedResult(e.key); nerr == nil && n != nil {
+								here := fmt.Sprintf("%sNestedResult(%d)", trail, e.key)
+								if payload, ok := lastPayload(in, e.key); ok {
+									for _, se := range e.sub.entries {
+										if se.sub != nil || se.key < 0 {
+											continue
+										}
+										got, live := accessPathV(n, []int{se.key}, "Bytess")
+										if want, ok := refPathAnswer(payload, e.sub, []int{se.key}, "Bytess"); ok && want != got && o.viol == nil {
+											o.viol = &fw.Violation{Stream: "shared", Signature: "conc/foreign-value/nested-result",
+												What:  fmt.Sprintf("goroutine %d observed, in a nested result, a value that is not its own input's", g),
+												Input: fmt.Sprintf("%s input=%s nested=%s tag=%d", desc, hexs(in0), here, se.key), Expected: trunc(want, 200), Got: trunc(got, 200)}
+										}
+										keep(fmt.Sprintf("%s.Bytess(%d) of input %s", here, se.key, trunc(hexs(in0), 200)), got, live)
+									}
+									descend(n, payload, e.sub, here+".")
+								}
+								n.Close()
+							}
 						}
 					}
+					descend(res, in, def, "")
 					// all occurrences of every nested tag, each result compared with its own occurrence's bytes
 					for _, e := range def.entries {
 						if e.sub == nil || e.key < 0 {
@@ -354,7 +378,7 @@ func runC15(c *fw.Ctx) int {
 			for _, a := range []struct {
 				g    int
 				args []string
-			}{{8, []string{"-procs", "16"}}, {64, []string{"-procs", "2", "-fast"}}, {4, []string{"-procs", "1", "-maxbuf", "1"}}, {16, []string{"-procs", "16", "-fast", "-maxbuf", "0"}}, {16, []string{"-procs", "4", "-maxbuf", "0"}}} {
+			}{{8, []string{"-procs", "16", "-filter", "neg"}}, {64, []string{"-procs", "2", "-fast"}}, {4, []string{"-procs", "1", "-maxbuf", "1", "-filter", "mixed"}}, {16, []string{"-procs", "16", "-fast", "-maxbuf", "0"}}, {16, []string{"-procs", "4", "-maxbuf", "0", "-filter", "half"}}} {
 				runRace(c, bin, append([]string{"-g", fmt.Sprint(a.g), "-n", fmt.Sprint(total / a.g), "-seed", fmt.Sprint(c.Seed)}, a.args...)...)
 			}
 			// cold starts: state that is initialised lazily on first use (package-level caches, once-only set-up) is
@@ -374,6 +398,9 @@ func runC15(c *fw.Ctx) int {
 				if k%4 == 3 {
 					a = append(a, "-maxbuf", "1")
 				}
+				if k%5 == 2 {
+					a = append(a, "-filter", []string{"neg", "zero", "mixed"}[(k/5)%3])
+				}
 				runRace(c, bin, a...)
 			}
 		}
@@ -382,7 +409,7 @@ func runC15(c *fw.Ctx) int {
 		c.LeanChecker("C15")
 	}
 	return c.Finish(
-		"shared: G in {2,3,4,8,16,64} goroutines x GOMAXPROCS in {1,2,16} sharing one Decoder (random definition, safe/fast, optional max buffer); each goroutine decodes its own distinct inputs, issues 4 random (path, accessor) requests with an injected yield, closes; every answer is compared with the Lean model asked with a *new* object (C14: recycling is invisible) and with a reference parse of that goroutine's own input; in safe mode every value handed out (byte slices, strings, typed slices; root results, NestedResult, NestedResults) is KEPT by the goroutine and looked at again after every later iteration, when the goroutine has finished and when all have finished (a result is recycled by whoever decodes next); every fourth result is kept OPEN while the goroutine decodes and reads its next message (two results of the shared Decoder alive in one goroutine), read again and only then closed; race-detector: a fixed-schema workload built with -race (root and nested results; varint / packed varint / fixed32 / packed fixed32 / fixed64 / string / bytes fields, a declared-but-absent tag, an undeclared tag, a nested field whose payload is sometimes damaged, malformed inputs; fixed reads of every kind of value incl. wrong-type requests, all 26 accessors on one random root tag and on one nested tag per iteration, paths, NestedResult(s), Range; safe mode: values kept across Close and re-checked for three more iterations, then overwritten by their owner, input overwritten after Decode; every fifth result kept open across the next iteration), 5 steady-state configurations + 12 short cold-start processes in which all goroutines are released by one barrier and begin with the sweep of all 26 accessors over every tag (every wire type, absent, undeclared; root and nested), so that error paths are taken concurrently from the first operations of a process on; non-trivial = non-empty input",
+		"shared: G in {2,3,4,8,16,64} goroutines x GOMAXPROCS in {1,2,16} sharing one Decoder (random definition - two rounds in three one that descends 3 or 4 message levels, root -> nested -> nested-in-nested -; safe/fast x max buffer x buffer filter, every combination as in C14); each goroutine decodes its own distinct inputs, issues 4 random (path, accessor) requests plus up to 4 requests on paths that go below the root (drawn from ALL paths of the definition tree, deeper ones preferred) with an injected yield, walks explicit NestedResult handles down every level of the definition, closes; every answer is compared with the Lean model asked with a *new* object (C14: recycling is invisible) and with a reference parse of that goroutine's own input; in safe mode every value handed out (byte slices, strings, typed slices; root results, NestedResult, NestedResults) is KEPT by the goroutine and looked at again after every later iteration, when the goroutine has finished and when all have finished (a result is recycled by whoever decodes next); every fourth result is kept OPEN while the goroutine decodes and reads its next message (two results of the shared Decoder alive in one goroutine), read again and only then closed; race-detector: a fixed-schema workload built with -race (root results and nested results down to the FOURTH message level - 3 -> 5 -> 3, read through paths, NestedResult and NestedResults of a nested result, and compared with a protowire walk of the goroutine's own input as well as with a private Decoder; buffer filter functions incl. always-negative in some configurations; varint / packed varint / fixed32 / packed fixed32 / fixed64 / string / bytes fields, a declared-but-absent tag, an undeclared tag, a nested field whose payload is sometimes damaged, malformed inputs; fixed reads of every kind of value incl. wrong-type requests, all 26 accessors on one random root tag and on one nested tag per iteration, paths, NestedResult(s), Range; safe mode: values kept across Close and re-checked for three more iterations, then overwritten by their owner, input overwritten after Decode; every fifth result kept open across the next iteration), 5 steady-state configurations + 12 short cold-start processes in which all goroutines are released by one barrier and begin with the sweep of all 26 accessors over every tag (every wire type, absent, undeclared; root and nested), so that error paths are taken concurrently from the first operations of a process on; non-trivial = non-empty input",
 		append(trustedCommon, "sync.Pool: Put happens-before the Get that returns the same object; an object is handed to one getter at a time", "the Go race detector (supporting evidence only)"),
 		[]string{"PARTIAL: data-race freedom in the sense of the Go memory model cannot be exhibited by the Lean model; the model proves the ownership discipline (exclusive ownership between Get and Put under every interleaving, conflicting accesses ordered by Put/Get, shared tables written only by constructors — the latter bridged to a regenerated table of all field writes in lazyproto)"})
 }
